@@ -260,7 +260,7 @@ func extractC04(c *ctxT) {
 		{"x/crosschain/precompile", "Keeper", "handlerOriginToken", []c04Want{{"handlerOriginToken", nil}}},
 	}
 	var sb strings.Builder
-	sb.WriteString("import FxVerif.Model.C04Handler\nnamespace FxVerif.Gen.C04\nopen FxVerif.Model.Flows (Call)\nopen FxVerif.Model.C04 (BStep BGuard BExit RStep RGuard RExit Cmp CancelRule XStep Sig Ref FCall HStep HRef RfStep TStep CancelArg)\n\n")
+	sb.WriteString("import FxVerif.Model.C04Handler\nnamespace FxVerif.Gen.C04\nopen FxVerif.Model.Flows (Call)\nopen FxVerif.Model.C04 (BStep BGuard BExit RStep RGuard RExit Cmp CancelRule XStep Sig Ref FCall HStep HRef RfStep TStep CancelArg MintGuard)\n\n")
 	facts := map[string]any{}
 	for _, f := range fns {
 		fd := c.findFunc(f.pkg, f.recv, f.name)
